@@ -176,22 +176,33 @@ end fisher
 section stats
 variable {K : Type} [Add K] [Sub K] [Mul K] [Div K] [Zero K] [NatCast K]
 
-/-- `np.vdot(x - y, x - y)` for real arrays; `zip` truncates like Python's. -/
-def sqDist (x y : List K) : K := lsum ((x.zip y).map fun (a, b) => (a - b) * (a - b))
+/-- `np.vdot(x - y, x - y)` for real 1-d arrays: numpy's `x - y` needs equal lengths or one operand of length 1
+(broadcast); anything else is the broadcast `ValueError`. -/
+def sqDist (x y : List K) : Except Err K :=
+  let bx := if x.length = 1 ∧ y.length ≠ 1 then List.replicate y.length (x.headD 0) else x   -- head exists: length 1
+  let by_ := if y.length = 1 ∧ x.length ≠ 1 then List.replicate x.length (y.headD 0) else y
+  if bx.length = by_.length then .ok (lsum ((bx.zip by_).map fun (a, b) => (a - b) * (a - b)))
+  else .error .broadcast
 
-/-- `calc_se(xs, ys)` -/
-def se (xs ys : List (List K)) : K := lsum ((xs.zip ys).map fun (x, y) => sqDist x y)
+/-- `calc_se(xs, ys)`: Python's `zip(xs, ys)` truncates to the shorter list -/
+def se (xs ys : List (List K)) : Except Err K := do
+  let ds ← (xs.zip ys).mapM fun (x, y) => sqDist x y
+  pure (lsum ds)
 
-def mean (l : List K) : K := lsum l / (l.length : K)
+/-- `np.mean(l)`; `none` = numpy's `nan` (empty input, RuntimeWarning) -/
+def mean? (l : List K) : Option K := if l.isEmpty then none else some (lsum l / (l.length : K))
 
-/-- square of `np.std(l, ddof=1)` -/
-def varDdof1 (l : List K) : K :=
-  lsum (l.map fun x => (x - mean l) * (x - mean l)) / ((l.length - 1 : Nat) : K)
+/-- square of `np.std(l, ddof=ddof)`; `none` = numpy's `nan` (no degree of freedom left) -/
+def varDdof? (ddof : Nat) (l : List K) : Option K :=
+  if l.length ≤ ddof then none
+  else
+    let mu := lsum l / (l.length : K)
+    some (lsum (l.map fun x => (x - mu) * (x - mu)) / ((l.length - ddof : Nat) : K))
 
-/-- `calc_mse_prob_dists(xs_list, ys_list)`: (mean, std²) of the per-repetition squared errors -/
-def mseProbDists (xsl ysl : List (List (List K))) : K × K :=
-  let ses := (xsl.zip ysl).map fun (xs, ys) => se xs ys
-  (mean ses, varDdof1 ses)
+/-- `calc_mse_prob_dists(xs_list, ys_list)`: (mean, std²) of the per-repetition squared errors, `ddof = 1` -/
+def mseProbDists (xsl ysl : List (List (List K))) : Except Err (Option K × Option K) := do
+  let ses ← (xsl.zip ysl).mapM fun (xs, ys) => se xs ys
+  pure (mean? ses, varDdof? 1 ses)
 
 end stats
 
@@ -204,8 +215,11 @@ def mseLinearVar (bs : List (Block K)) {k : Nat} (Ainv : Mat K k (dsSize bs)) : 
   (conjugate Ainv (directSum bs)).trace
 
 /-- `StandardPovmt._generate_matS`: `np.hstack([I_{d2}] * (num_outcomes − 1))` -/
-def matS (d2 mo : Nat) : Mat K d2 ((mo - 1) * d2) :=
+def matSWith (off d2 mo : Nat) : Mat K d2 ((mo - off) * d2) :=
   Mat.ofFn fun a j => if j.val % d2 = a.val then 1 else 0
+
+/-- the matrix with the code's block count `num_outcomes − 1` -/
+def matS (d2 mo : Nat) : Mat K d2 ((mo - 1) * d2) := matSWith 1 d2 mo
 
 /-- `StandardPovmt._calc_mse_linear_analytical_mode_qoperation` for `on_para_eq_constraint = True`:
 first term + `trace(S · Cov_lin · Sᵀ)`; `ValueError` (shape) when `S` and the covariance do not fit. -/
@@ -252,22 +266,26 @@ def fisherQt (matA : List (List K)) (vecB : List K) (numSched j : Nat) (var : Li
   let ps := (rows.zip bsl).map fun (r, b) => lsum ((r.zip var).map fun (a, v) => a * v) + b
   fisher ps rows eps
 
-/-- `calc_fisher_matrix_total(var, weights)`: python `sum([...])` of `weights[j] * F_j` -/
+/-- one summand of `calc_fisher_matrix_total(var, weights)`: `weights[j] * calc_fisher_matrix(j, var)`
+(`IndexError` ⇒ sizeMismatch when there are fewer weights than schedules) -/
+def fisherQtTerm (matA : List (List K)) (vecB : List K) (numSched : Nat) (var : List K)
+    (ws : List K) (eps : K) (j : Nat) : Except Err (Nat × List (List K)) :=
+  match ws[j]? with
+  | none => .error .sizeMismatch
+  | some w => do
+    let (sv, F) ← fisherQt matA vecB numSched j var eps
+    pure (sv, F.map fun r => r.map fun x => w * x)
+
+/-- python `sum([...])` of the summands (first summand + the others; the matrix size is that of the first) -/
+def sumTerms : List (Nat × List (List K)) → Except Err (Nat × List (List K))
+  | [] => .error .empty
+  | (sv, F) :: r => .ok (sv, r.foldl (fun acc t => addRows acc t.2) F)
+
+/-- `calc_fisher_matrix_total(var, weights)`: every summand is computed (list comprehension over `range(num_schedules)`), then summed -/
 def fisherQtTotal (matA : List (List K)) (vecB : List K) (numSched : Nat) (var : List K)
     (ws : List K) (eps : K) : Except Err (Nat × List (List K)) := do
-  let mut acc : Option (Nat × List (List K)) := none
-  for j in List.range numSched do
-    match ws[j]? with
-    | none => throw .sizeMismatch
-    | some w =>
-      let (sv, F) ← fisherQt matA vecB numSched j var eps
-      let wF := F.map fun r => r.map fun x => w * x
-      acc := match acc with
-        | none => some (sv, wF)
-        | some (s, A) => some (s, addRows A wF)
-  match acc with
-  | none => throw .empty
-  | some r => return r
+  let terms ← (List.range numSched).mapM (fisherQtTerm matA vecB numSched var ws eps)
+  sumTerms terms
 
 end qtfisher
 
@@ -337,6 +355,12 @@ def mseLinearExact [Add K] [Sub K] [Mul K] [Div K] [Zero K] [NatCast K] {m k : N
   expectJoint (l.map fun x => (x.2.1, x.2.2)) fun cs => normSq (linErr l cs)
 
 end law
+
+/-- the default `eps` of `calc_fisher_matrix` / `replace_prob_dist` / `calc_fisher_matrix_total` (`1e-8`), used by the driver
+when the implementation is called without `eps` (request token `default`) -/
+def defaultEps : Rat := mkRat 1 100000000
+
+def parseEps? (s : String) : Option Rat := if s = "default" then some defaultEps else parseRat? s
 
 /-! ## driver -/
 
@@ -459,17 +483,17 @@ def handle (args : List String) : Option String :=
       | .ok L => some (showMat L)
   | ["replace", ps, eps] => do
       let ps ← parseList? parseRat? ps
-      let eps ← parseRat? eps
+      let eps ← parseEps? eps
       some s!"ok {showList showRat (replaceProbDist ps eps)}"
   | "fisher" :: ps :: eps :: k :: rest => do
       let ps ← parseList? parseRat? ps
-      let eps ← parseRat? eps
+      let eps ← parseEps? eps
       let k ← parseNat? k
       let (grads, rest') ← parseLists k rest
       if !rest'.isEmpty then none
       some (showRows (fisher ps grads eps))
   | "fishertot" :: eps :: ws :: k :: rest => do
-      let eps ← parseRat? eps
+      let eps ← parseEps? eps
       let ws ← parseList? parseRat? ws
       let k ← parseNat? k
       let (pss, rest') ← parseLists k rest
@@ -483,15 +507,19 @@ def handle (args : List String) : Option String :=
       let k2 ← parseNat? (← rest'.head?)
       let (ys, rest'') ← parseLists k2 rest'.tail
       if !rest''.isEmpty then none
-      some s!"ok {showRat (se xs ys)}"
+      match se xs ys with
+      | .ok v => some s!"ok {showRat v}"
+      | .error e => some s!"err {e.toString}"
   | "mseprob" :: k :: rest => do
       let k ← parseNat? k
       let (xsl, rest') ← parseListLists k rest
       let k2 ← parseNat? (← rest'.head?)
       let (ysl, rest'') ← parseListLists k2 rest'.tail
       if !rest''.isEmpty then none
-      let (mu, v) := mseProbDists xsl ysl
-      some s!"ok {showRat mu} {showRat v}"
+      let sh := fun (o : Option Rat) => match o with | some v => showRat v | none => "nan"
+      match mseProbDists xsl ysl with
+      | .ok (mu, v) => some s!"ok {sh mu} {sh v}"
+      | .error e => some s!"err {e.toString}"
   | "mselin" :: mode :: d2 :: mo :: kk :: ainv :: k :: rest => do
       -- mode: var | povmq ; Ainv flat kk × (Σ outcome counts)
       let d2 ← parseNat? d2
@@ -522,7 +550,7 @@ def handle (args : List String) : Option String :=
       let ns ← parseNat? ns
       let j ← parseNat? j
       let var ← parseList? parseRat? var
-      let eps ← parseRat? eps
+      let eps ← parseEps? eps
       some (showRows (fisherQt (chunk cols a rows) b ns j var eps))
   | ["fisherqttot", rows, cols, a, b, ns, ws, var, eps] => do
       let rows ← parseNat? rows
@@ -533,7 +561,7 @@ def handle (args : List String) : Option String :=
       let ns ← parseNat? ns
       let ws ← parseList? parseRat? ws
       let var ← parseList? parseRat? var
-      let eps ← parseRat? eps
+      let eps ← parseEps? eps
       some (showRows (fisherQtTotal (chunk cols a rows) b ns var ws eps))
   | ["crb", nv, finv, n] => do
       let nv ← parseNat? nv
